@@ -140,7 +140,14 @@ def compare_interps(i1, i2, timeout_ms=20000, check_oob=False, extra_assumptions
         for c in cons:
             s.add(c)
         s.add(d)
+        s.set("timeout", min(timeout_ms, 4000))
         r = str(s.check())
+        s.set("timeout", timeout_ms)
+        if r == "unknown":
+            if _abstract_unsat(assume, cons, d, timeout_ms):
+                s.pop()
+                continue
+            r = str(s.check())
         if r == "sat":
             # prefer a witness with small integral values (replayable in gfortran)
             model = _nice_model(s, i1) or s.model()
@@ -167,6 +174,18 @@ def compare_interps(i1, i2, timeout_ms=20000, check_oob=False, extra_assumptions
         s.pop()
     return Result(verdict, model=model, diff=which, solver_s=time.time() - t0, reach=reach,
                   nontrivial=nontrivial, i1=i1, i2=i2, oob=oob, zero_trip_only=zto)
+
+
+def _abstract_unsat(assume, cons, d, timeout_ms):
+    """Retry with non-linear products abstracted to uninterpreted functions: unsat there
+    implies unsat of the real query; anything else means nothing."""
+    from .terms import abstract_nl
+    ts = abstract_nl(list(assume) + list(cons) + [d])
+    s2 = z3.Solver()
+    s2.set("timeout", timeout_ms)
+    for t in ts:
+        s2.add(t)
+    return str(s2.check()) == "unsat"
 
 
 def _unsat_with(s, d, cons):
@@ -322,7 +341,7 @@ def _type_specs_module(it, mname):
     return out
 
 
-def run_gfortran(src, driver, workdir, flags=(), timeout=60, env=None):
+def run_gfortran(src, driver, workdir, flags=(), timeout=300, env=None):
     os.makedirs(workdir, exist_ok=True)
     with open(os.path.join(workdir, "unit.f90"), "w", encoding="utf-8") as fh:
         fh.write(src)
@@ -330,7 +349,10 @@ def run_gfortran(src, driver, workdir, flags=(), timeout=60, env=None):
         fh.write(driver)
     cmd = ["gfortran", "-O0", "-ffree-line-length-none", "-fno-range-check", "-fcheck=bounds", *flags,
            "unit.f90", "drv.f90", "-o", "a.out"]
-    p = subprocess.run(cmd, cwd=workdir, capture_output=True, text=True, timeout=timeout)
+    try:
+        p = subprocess.run(cmd, cwd=workdir, capture_output=True, text=True, timeout=timeout)
+    except subprocess.TimeoutExpired:
+        return None, "COMPILE-TIMEOUT"
     if p.returncode != 0:
         return None, "COMPILE-ERROR\n" + p.stderr[-2000:]
     try:
@@ -391,6 +413,8 @@ def replay(res, src1, src2, routine, flags=(), keep=None):
                 f"! differing observable (solver): {res.diff}\n")
         if o1 is None:
             return None, "original failed: " + e1 + "\n" + text
+        if o2 is None and e2.startswith(("COMPILE-TIMEOUT", "RUN-TIMEOUT")):
+            return None, "transformed timed out (machine load?): " + e2 + "\n" + text
         if o2 is None:
             # transformed program does not compile / run: that is itself a reproduced defect
             return True, "transformed failed: " + e2 + "\n" + text
